@@ -504,6 +504,15 @@ func report(t *testing.T, rec *vt.Rec, test string, seen map[string]bool) func(i
 		}
 		if out.Fired > 0 && (out.RunErr != "" || out.ScanErr != "") {
 			classes = append(classes, "first-run-reported-error")
+			switch {
+			case out.RunErr == "":
+				classes = append(classes, "first-error:scan")
+			case strings.Contains(out.RunErr, "consecutive attempts"):
+				classes = append(classes, "first-error:run-gave-up-after-consecutive-losses")
+			default:
+				classes = append(classes, "first-error:run-other")
+				rec.Sample("first-error:run-other", map[string]interface{}{"scenario": sc.String(), "run_err": tail(out.RunErr, 600)})
+			}
 		}
 		if out.Fired > 0 && out.RunErr == "" && out.ScanErr == "" {
 			classes = append(classes, "first-run-succeeded-despite-kill")
